@@ -69,6 +69,34 @@ def gen_payload(rng, ser):
     return _sanitize(v, ser)
 
 
+def has_bytes_py(v):
+    if isinstance(v, (bytes, bytearray)):
+        return True
+    if isinstance(v, (list, tuple)):
+        return any(has_bytes_py(x) for x in v)
+    if isinstance(v, dict):
+        return any(has_bytes_py(x) for x in v.values())
+    return False
+
+
+def gen_nested_bytes(rng, ser):
+    """A payload with byte strings BELOW the top level (inside a list / dict of an argument)."""
+    inner = rng.choice([
+        lambda: [values.gen_bytes(rng), values.gen_json(rng, 1, True)],
+        lambda: {'k': values.gen_bytes(rng), 'l': [values.gen_bytes(rng), 1]},
+        lambda: {'a': {'b': [values.gen_bytes(rng)]}, 'c': values.gen_json(rng, 2, True)},
+        lambda: [[values.gen_bytes(rng)], {'x': values.gen_bytes(rng)}],
+    ])()
+    r = rng.random()
+    if r < 0.4:
+        v = inner
+    elif r < 0.8:
+        v = (values.gen_json(rng, 1, True), inner)
+    else:
+        v = (inner, values.gen_bytes(rng), values.gen_text(rng))
+    return _sanitize(v, ser)
+
+
 def gen_scenario(rng, cfg, thorough):
     mode, ser, b64 = cfg
     nss = rng.sample(NAMESPACES, rng.choice([1, 2, 2]))
@@ -93,8 +121,46 @@ def gen_scenario(rng, cfg, thorough):
             ops[-1]['hold'] = kind != 'call' and rng.random() < 0.3
             ops[-1]['first'] = rng.choice(['c2s', 's2c'])       # which queue the pump serves first
     rng.shuffle(ops)
+    # the SAME payload object sent several times in a row (emit in a loop, emit to two recipients
+    # = the client's sids in two namespaces, retry), and handlers returning one shared constant
+    # for several events: groups of consecutive operations that share `data` / `ret` by identity
+    gid = 0
+    for _ in range(rng.choice([0, 1, 1, 2])):
+        gid += 1
+        base = rng.choice(ops)
+        n = rng.choice([2, 2, 3])
+        data = gen_nested_bytes(rng, ser)
+        ret = gen_nested_bytes(rng, ser)
+        share_ret = rng.random() < 0.6
+        group = []
+        for j in range(n):
+            o = dict(base, data=data, share=gid, ns=rng.choice(nss))
+            if o['kind'] == 'send':
+                o['event'] = 'message'
+            if share_ret:
+                o['ret'] = ret
+                o['ret_share'] = gid
+                o['ack'] = True if j < 2 else o['ack']
+            if o['kind'] == 'call':
+                o['hold'] = False
+            group.append(o)
+        at = rng.randrange(len(ops) + 1)
+        ops[at:at] = group
+    # nested delivery on the client: a handler of a server->client event has the next frame(s)
+    # delivered while it is still running
+    nested = rng.random() < 0.35
+    coro = rng.random() < 0.5
+    if nested:
+        if mode == 'async':
+            coro = True
+        for o in ops:
+            if o['dir'] == 's2c':
+                if o['kind'] != 'call' and rng.random() < 0.6:
+                    o['hold'] = True
+                if rng.random() < 0.6:
+                    o['nest'] = rng.choice([1, 1, 2, 3])
     return {'cfg': list(cfg), 'namespaces': nss, 'ops': ops, 'async_handlers': async_handlers,
-            'coro': rng.random() < 0.5, 'catchall': rng.random() < 0.25}
+            'coro': coro, 'catchall': rng.random() < 0.25, 'nested': nested}
 
 
 # --------------------------------------------------------------------------- execution
@@ -112,14 +178,32 @@ async def _run(sc):
     pending = {'c2s': [], 's2c': []}      # emitted ops whose handler has not run yet
     results = []                          # per op: API result, callback args
 
+    shared = {}                           # share group -> THE payload object handed to emit each time
+    shared_ret = {}                       # ret_share group -> THE object the handlers return
+    originals = []                        # (original deep copy, the object the library was given)
+
     def handler(direction, ns, ev, args, cid):
+        """Called when a handler is entered; the ACK value is produced when it returns."""
         op = pending[direction].pop(0) if pending[direction] else None
-        if op is None:
-            return None
-        if op['ack']:
-            back = 's2c' if direction == 'c2s' else 'c2s'
-            sent[back].append(('ack', copy.deepcopy(op['ret']), op['ns'], op.get('id')))
-        return copy.deepcopy(op['ret'])
+
+        def finish():
+            if op is None:
+                return None
+            if op['ack']:
+                back = 's2c' if direction == 'c2s' else 'c2s'
+                sent[back].append(('ack', copy.deepcopy(op['ret']), op['ns'], op.get('id')))
+            if 'ret_share' in op:
+                g = op['ret_share']
+                if g not in shared_ret:
+                    shared_ret[g] = copy.deepcopy(op['ret'])
+                    originals.append((copy.deepcopy(op['ret']), shared_ret[g]))
+                return shared_ret[g]
+            r = copy.deepcopy(op['ret'])
+            if has_bytes_py(r):
+                originals.append((copy.deepcopy(op['ret']), r))
+            return r
+        nest = op.get('nest', 0) if (op is not None and direction == 's2c') else 0
+        return nest, finish
 
     events = {}
     for op in sc['ops']:
@@ -152,7 +236,15 @@ async def _run(sc):
         kw = {'namespace': None if (op['ns'] == '/' and k % 2) else op['ns']}
         if d == 's2c':
             kw['to'] = lb.server_sid(op['ns'])
-        data = copy.deepcopy(op['data'])
+        if 'share' in op:
+            if op['share'] not in shared:
+                shared[op['share']] = copy.deepcopy(op['data'])
+                originals.append((copy.deepcopy(op['data']), shared[op['share']]))
+            data = shared[op['share']]          # the very same object every time
+        else:
+            data = copy.deepcopy(op['data'])
+            if has_bytes_py(data):
+                originals.append((copy.deepcopy(op['data']), data))
         m = ['emit', op['event'], copy.deepcopy(op['data']), op['ns'], None]
         sent[d].append(m)
         pending[d].append(op)
@@ -190,7 +282,8 @@ async def _run(sc):
         lb.rx['c2s'] = by_dispatch
     lb.rx = {d: [e[:-1] for e in lb.rx[d]] for d in lb.rx}
     out = {'sent': sent, 'wire': lb.wire, 'jtab': lb.jtab, 'rx': lb.rx, 'escaped': lb.escaped,
-           'invoked': invoked, 'reordered': reordered,
+           'invoked': invoked, 'reordered': reordered, 'originals': originals,
+           'nested_deliveries': lb.nested_deliveries,
            'results': results, 'unhandled': {d: len(pending[d]) for d in pending}}
     return out
 
@@ -320,13 +413,39 @@ def cases_of(sc, out):
             got = rec['cb']
             obs = clist([pv(x) for x in got]) if got is not None else '[PObj 0%N]'
             cs.append(('(CbArgs %s %s)' % (pv(op['ret']), obs), 'cb', k))
+    for k, (orig, after) in enumerate(out['originals']):
+        try:
+            cs.append(('(Unmodified %s %s)' % (pv(orig), pv(after)), 'unmodified', k))
+        except TypeError:
+            cs.append(('(Unmodified %s (PObj 0%%N))' % pv(orig), 'unmodified', k))
     return cs
 
 
 def single_op_scenarios(sc):
+    """Candidate reductions: every operation alone; every group of operations that re-send one
+    payload object (or return one shared value) alone; for nested-delivery scenarios the
+    server->client operations alone and every adjacent pair of them."""
     for op in sc['ops']:
         s = dict(sc)
         s['ops'] = [dict(op, batch=False, hold=False)]
+        yield s
+    groups = {}
+    for op in sc['ops']:
+        if 'share' in op:
+            groups.setdefault(op['share'], []).append(op)
+    for g in groups.values():
+        s = dict(sc)
+        s['ops'] = [dict(op) for op in g]
+        yield s
+    if sc.get('nested'):
+        down = [op for op in sc['ops'] if op['dir'] == 's2c']
+        for a, b in zip(down, down[1:]):
+            if a.get('nest') and a['kind'] != 'call':
+                s = dict(sc)
+                s['ops'] = [dict(a, hold=True), dict(b, hold=False)]
+                yield s
+        s = dict(sc)
+        s['ops'] = [dict(op) for op in down]
         yield s
 
 
@@ -385,6 +504,10 @@ def run(chk):
                 chk.dist('config ' + label)
             if out['escaped']:
                 chk.dist('escaped exception')
+            if out.get('nested_deliveries'):
+                chk.dist('frames delivered while a client handler was running', out['nested_deliveries'])
+            if any('share' in op for op in sc['ops']):
+                chk.dist('scenario re-sending one payload object')
             if out['reordered']:
                 chk.dist('async_handlers=True: a handler task started after the callback of a later ACK (%s)' % cfg[0])
     codes, errors = coqio.eval_cases('c02', IMPORTS, '', 'c02case', cases, 'c02_eval', shard=40)
@@ -408,6 +531,11 @@ def describe(sc, out, kind, info):
                 '%s %s stream: what the peer\'s handlers / callbacks received differs from what was sent (%s); '
                 'sent=%s received=%s escaped=%r' % (label, info, what, _short(out['sent'][info]), _short(out['rx'][info]),
                                                     out['escaped'][:2]))
+    if kind == 'unmodified':
+        orig, after = out['originals'][info]
+        return ('c02-payload-modified',
+                '%s: the library modified the application\'s payload object: before the first send %s, after the '
+                'sends %s' % (label, _short(orig), _short(after)))
     op = sc['ops'][info]
     res = out['results'][info]
     if kind == 'call':
@@ -447,7 +575,7 @@ def report(chk, cases, meta, codes):
             s1, out1, kind1, info1, code1 = small
             if code1 & 2:
                 sig, text = describe(s1, out1, kind1, info1)
-                chk.violation(sig, text + ' [minimised to one operation]', {'scenario_repr': repr(clean(s1))})
+                chk.violation(sig, text + ' [minimised to %d operation(s)]' % len(s1['ops']), {'scenario_repr': repr(clean(s1))})
                 continue
         idx, code = next(((i, c) for i, c in hits if c & 2), hits[0])
         _, out, kind, info = meta[idx]
@@ -480,7 +608,7 @@ def minimize_all(scenarios):
     best = {}
     for i, c in sorted(codes.items()):
         sid, s, out, kind, info = owner[i]
-        size = len(repr(s['ops'][0]['data'])) + len(repr(s['ops'][0]['ret']))
+        size = sum(len(repr(o['data'])) + len(repr(o['ret'])) + 50 for o in s['ops'])
         rank = (0 if c & 2 else 1, size)
         if sid not in best or rank < best[sid][0]:
             best[sid] = (rank, (s, out, kind, info, c))
